@@ -101,3 +101,50 @@ def real_h_find_all(p, n, w0, w1, w2, w3, w4, w5):
     bad = clauses(t, w, ms)
     sig = classify(t, w, ms, bad)
     return {"reproduced": bool(bad), "sig": sig, "detail": f"pattern {pat.show(t)} on {''.join('abcd'[x] for x in w)!r} -> {[(s, e) for s, e, _ in ms]} violates {bad}"}
+
+
+# ----------------------------------------------------------------------------------------------- a search is a function of (pattern, sequence): an earlier search in the same process changes nothing
+_SNAP = None
+FIX_Q = param("fix_q", None)
+
+
+def _pick(x, n):
+    for k in range(n):
+        if x == k:
+            return k
+    return 0
+
+
+@untraced
+def _after(q, p, w):
+    """find_all with pattern q on a fixed word first (unless q < 0), then pattern p on w; the second result is judged by the clauses as usual."""
+    from vlib.hx import StateSnapshot
+    global _SNAP
+    if _SNAP is None:
+        _SNAP = StateSnapshot()
+    _SNAP.restore()
+    if q >= 0:
+        matcher.find_all(pat.to_expression(_lift(PATTERNS[q])), [BASE + x for x in (0, 1, 2, 0, 1)])
+    r = matcher.find_all(pat.to_expression(_lift(PATTERNS[p])), [BASE + x for x in w])
+    ms = [(m.start, m.end, [x - BASE for x in m.tokens]) for m in r]
+    bad = clauses(PATTERNS[p], w, ms)
+    if bad and TOLERATE and classify(PATTERNS[p], w, ms, bad) in TOLERATE:
+        bad = []
+    return bad, len(ms)
+
+
+def h_find_all_after(q: int, p: int, n: int, w0: int, w1: int, w2: int, w3: int) -> bool:
+    """
+    pre: -1 <= q < len(PATTERNS) and (FIX_Q is None or q == FIX_Q) and 0 <= p < len(PATTERNS) and 0 <= n <= 4 and n <= L and _ok_letters([w0, w1, w2, w3]) and all(x == 0 for x in [w0, w1, w2, w3][n:])
+    post: _
+    """
+    w = [_pick(x, 4) for x in [w0, w1, w2, w3]][:_pick(n, 5)]
+    bad, k = _after(_pick(q + 1, len(PATTERNS) + 1) - 1, _pick(p, len(PATTERNS)), w)
+    return fin(bad == [], k >= 1 and q >= 0)
+
+
+def real_h_find_all_after(q, p, n, w0, w1, w2, w3):
+    w = [w0, w1, w2, w3][:n]
+    bad, _k = _after.__wrapped__(q, p, w)
+    t = PATTERNS[p]
+    return {"reproduced": bool(bad), "sig": "find_all:after-another-search:" + "+".join(sorted(set(bad))), "detail": f"pattern {pat.show(t)} on {''.join('abcd'[x] for x in w)!r} after a search for {pat.show(PATTERNS[q]) if q >= 0 else None} on 'abcab': violates {bad}"}
